@@ -79,6 +79,10 @@ func init() {
 				}
 				o.Count("op:" + f[1])
 				switch f[1] {
+				case "retime": // backend wait_ms new_ms
+					a, _ := strconv.Atoi(f[3])
+					b, _ := strconv.Atoi(f[4])
+					return evRetime(c.out, f[2], a, b)
 				case "shutdown": // backend order
 					return evShutdown(c.out, f[2], f[3])
 				case "janitor": // backend first_ms last_ms
@@ -226,7 +230,8 @@ func init() {
 					a, b = b, a
 				}
 				emit("ev", "janitor", []string{"mem", "file"}[r.Intn(2)], itoa(a), itoa(b))
-				emit("ev", "shutdown", []string{"mem", "file"}[r.Intn(2)], []string{"destroy", "cancel-destroy", "destroy-cancel"}[r.Intn(3)])
+				emit("ev", "retime", []string{"mem", "file"}[r.Intn(2)], itoa([]int{5, 40, 80}[r.Intn(3)]), itoa([]int{4, 10, 25}[r.Intn(3)]))
+				emit("ev", "shutdown", []string{"mem", "file"}[r.Intn(2)], []string{"destroy", "cancel-destroy", "destroy-cancel", "pending-change", "pending-change"}[r.Intn(5)])
 			}
 			// the literal witnesses of the unfixed tree
 			for _, w := range [][]string{{"subscribe 0", "subscribe 1", "subscribe 2", "unsubscribe 0", "unsubscribe 2", "fire 1", "deliver 0", "deliver 0"},
